@@ -18,7 +18,10 @@ from props.service import sym_managers, proto, request, start_handler, status_co
 class ConsumerRace(Obligation):
     tier = 'T4'
 
-    def __init__(self, ctx, id_, consumers, events, n_out=1, n_back=1):
+    def __init__(self, ctx, id_, consumers, events, n_out=1, n_back=1, stall_after=None, backlog_exact=None, first=()):
+        self.first = tuple(first)           # indices of consumers that run alone (until parked / stalled / done) before the race starts
+        self.stall_after = stall_after      # a StreamingPull whose client stops reading after this many responses (HTTP/2 back-pressure)
+        self.backlog_exact = backlog_exact
         """consumers: list of 'pull' / 'stream'; events: list of 'post' / 'nack' / 'expire' / 'delete'"""
         self.id = id_
         self.consumers, self.events = list(consumers), list(events)
@@ -27,6 +30,12 @@ class ConsumerRace(Obligation):
                      'actor handling [%s] atomically' % (', '.join(consumers), ', '.join(events)))
         self.bounds = {'consumers': list(consumers), 'events': list(events), 'outstanding_before': '<= %d' % n_out, 'backlog_before': '<= %d' % n_back,
                        'granularity': 'Notify call / one-shot / mailbox send / actor step'}
+        if first:
+            self.desc += '; consumer(s) %s run alone first' % ', '.join(str(i) for i in first)
+            self.bounds['run_alone_first'] = list(first)
+        if stall_after is not None:
+            self.desc += '; the StreamingPull client stops reading after %d response(s): its generator stays suspended at the yield' % stall_after
+            self.bounds['stream_stalls_after_responses'] = stall_after
         self.max_paths = 400000
         self.unroll = 8
 
@@ -37,6 +46,8 @@ class ConsumerRace(Obligation):
         p.timers_never_fire = True
         p.deleted_by_oneshot = True
         st = sym_actor(ctx, p, self.n_out, self.n_back, deleted=False)
+        if self.backlog_exact is not None:
+            p.assume(actor_fields(ctx, st.cell.v)['backlog'].n == self.backlog_exact)
         notify = NotifyT4('messages_available')
         a = st.cell.v
         order = ctx.src.struct_fields('SubscriptionActor')
@@ -123,6 +134,8 @@ class ConsumerRace(Obligation):
         prime(acts)
         if state.get('skip'):
             raise Infeasible()
+        for i in self.first:
+            run_activities(p, [acts[i]])
         run_activities(p, acts)
         return {'st': st, 'acts': acts, 'nc': nc, 'notify': notify, 'state': state}
 
@@ -139,6 +152,9 @@ class ConsumerRace(Obligation):
             if it.discr == 0:
                 return 'ended'
             act.items.append(it.payload[1][0])
+            if self.stall_after is not None and len(act.items) >= self.stall_after:
+                act.stalled = True
+                return 'stalled'
         raise OutOfBound('stream polled more than %d times' % max_polls)
 
     def _event(self, ctx, p, st, actor_ip, act, kind, added, state):
@@ -191,6 +207,8 @@ class ConsumerRace(Obligation):
         out = [Claim('every event was handled', all(a.state == 'done' for a in events))]
         for a in consumers:
             out.append(Claim('%s is done or parked at the end of the schedule' % a.name, a.state in ('done', 'parked')))
+            if getattr(a, 'stalled', False):
+                continue
             if deleting:
                 # after the deletion has been processed nobody may be left waiting
                 if a.name.startswith('stream'):
